@@ -89,7 +89,9 @@ def tokens(tier, rng):
     # non-matching tokens: must pass through unchanged
     for t in ["1_u8", "300_u16", "0xAB12", "0xffB8", "0xBBBB_B432_u64", "12", "0b101", "0o17", "1_000_000u64", "255u8", "0xB", "0xB8",
               "0xABB16", "2.5", "1.0_f64", "1e3", '"5_U8"', '"U8"', "'U'", "'B'", 'b"1_U8"', "true", "0x1B8_i32", "0xffu8", "7_i64",
-              "0x0B0_u16", "1_u128", "0xdead_beef_u32"]:
+              "0x0B0_u16", "1_u128", "0xdead_beef_u32",
+              # hexadecimal literals with INNER underscores that merely end in B<digits>
+              "0x1_2B8", "0x7FFF_FFB1", "0xAB_CDB16", "0x_1B8", "0xB_0B8", "0x1_2b8"]:
         toks.append((t, None))
     # hex with separated B suffix: ours
     for t in ["0xff_B8", "0xBBB_B12", "0x0_B0", "0xB_B4", "0xB_B3"]:
